@@ -120,12 +120,12 @@ type verifSigned struct {
 
 type verifLedger struct {
 	byBytes   map[string]*verifSigned // content + decoded signature
-	byContent map[string]*verifSigned
+	byContent map[string][]*verifSigned // the same content can be signed more than once (at different instants)
 	list      []*verifSigned
 }
 
 func verifNewLedger() *verifLedger {
-	return &verifLedger{byBytes: map[string]*verifSigned{}, byContent: map[string]*verifSigned{}}
+	return &verifLedger{byBytes: map[string]*verifSigned{}, byContent: map[string][]*verifSigned{}}
 }
 
 func verifBytesKey(content, sigDec []byte) string {
@@ -160,14 +160,14 @@ func (l *verifLedger) record(label string, a asserts.Assertion, k *verifKey) *ve
 		e.ts = ts.Timestamp()
 	}
 	l.byBytes[verifBytesKey(content, dec)] = e
-	l.byContent[string(content)] = e
+	l.byContent[string(content)] = append(l.byContent[string(content)], e)
 	l.list = append(l.list, e)
 	return e
 }
 
 // lookup returns the signed entry with exactly this content and decoded
-// signature, and the entry with this content alone (nil if none).
-func (l *verifLedger) lookup(a asserts.Assertion) (exact, sameContent *verifSigned) {
+// signature, and the entries with this content alone (none if never signed).
+func (l *verifLedger) lookup(a asserts.Assertion) (exact *verifSigned, sameContent []*verifSigned) {
 	content, sig := a.Signature()
 	sameContent = l.byContent[string(content)]
 	dec, ok := verifDecodeSig(sig)
